@@ -258,6 +258,11 @@ struct Walker {
 		if (!configWellFormed(*in.fsm, expectOn, why, sizeof why)) { std::snprintf(buf, sizeof buf, "after %s (step %u): %s", what, S.stepNo, why); S.violation("C01", buf); if (std::strstr(why, "activeSubState")) S.violation("C13", buf); }
 		if (S.want("C13")) for (int s = 0; s < HV_NS; ++s) if (in.fsm->isPendingEnter((StateID) s) || in.fsm->isPendingExit((StateID) s) || in.fsm->isPendingChange((StateID) s)) { std::snprintf(buf, sizeof buf, "after %s (step %u) a pending query answers true for state %d although nothing is pending", what, S.stepNo, s); S.violation("C13", buf); break; }
 		if (S.want("C13")) for (int s = 0; s < HV_NS; ++s) if (in.fsm->isScheduled((StateID) s) != in.fsm->isResumable((StateID) s)) { S.violation("C13", "isScheduled() and isResumable() disagree"); break; }
+		// C13: a sub-state of an orthogonal region is exactly as resumable as the region (the nearest composite ancestor decides; none => never)
+		if (S.want("C13")) { bool seen = false; for (int s = 1; s < HV_NS; ++s) { const int p = node(s).parent; if (p < 0 || node(p).kind != ORTHO) continue;
+			const bool own = in.fsm->isResumable((StateID) s), reg = p == 0 ? false : in.fsm->isResumable((StateID) p);
+			if (own && !seen) { seen = true; st.cls("calls_with_resumable_state_below_orthogonal"); }
+			if (own != reg) { std::snprintf(buf, sizeof buf, "after %s (step %u) isResumable(%d) is %d but its orthogonal parent region %d answers %d (a resume of the enclosing region activates both or neither)", what, S.stepNo, s, (int) own, p, (int) reg); S.violation("C13", buf); break; } } }
 		S.cbChecks += (int) x.cbInvariantChecks; x.cbInvariantChecks = 0;
 		lifecycle(in, what);
 		judgeLogger(in, what);
